@@ -76,6 +76,14 @@ def _effective_attr_diff(before, after):
     return None
 
 
+def _plant_loop_cond_passthrough(g):
+    """Loop(M, cond, ...) with a positive constant trip count and a condition (false / true constant, or a bool graph input) that the body
+    hands on unchanged: a false condition means zero iterations.  The exporter may refuse this form; it must not turn it into `for i in range(M)`."""
+    if g.depth or "g_loop" in g.cfg.get("disable", ()):
+        return None
+    return g.g_loop(cond_passthrough=g.pick(["false", "false", "input", "true"]))
+
+
 def _plant_old_opset_attr(g):
     import numpy as np
 
@@ -224,8 +232,8 @@ def check(model, opts, feeds_list):
     inits_a = {i.name for i in new.graph.initializer}
     old_names = [v.name for v in model.graph.input if v.name not in inits_b]
     new_names = [v.name for v in new.graph.input if v.name not in inits_a]
-    src = compare.Source(model)
-    newsrc = compare.Source(new)
+    src = compare.Source(model, use_ref=not _reference_unreliable(model))
+    newsrc = compare.Source(new, use_ref=not _reference_unreliable(new))
     outcomes = []
     for feeds in feeds_list:
         f2 = {n2: feeds[n1] for n1, n2 in zip(old_names, new_names) if n1 in feeds}
@@ -254,6 +262,25 @@ def check(model, opts, feeds_list):
             outcomes.append("split")
     info["outcomes"] = outcomes
     return verdicts, info
+
+
+def _reference_unreliable(model):
+    """onnx.reference runs ZERO iterations of a Loop whose condition operand is omitted when the body hands its condition input on
+    (`cond_out = Identity(cond_in)`: the missing operand reaches the body as None) - the form every `for i in range(n)` of a script is
+    translated to.  ONNX and onnxruntime run n iterations.  Models with such a Loop are executed on onnxruntime only."""
+    def walk(g):
+        for n in g.node:
+            for a in n.attribute:
+                if a.type == onnx.AttributeProto.GRAPH and walk(a.g):
+                    return True
+            if n.op_type == "Loop" and (len(n.input) < 2 or n.input[1] == ""):
+                body = next(a.g for a in n.attribute if a.name == "body")
+                cin, cout = body.input[1].name, body.output[0].name
+                if cin == cout or any(x.op_type == "Identity" and list(x.input) == [cin] and list(x.output) == [cout] for x in body.node):
+                    return True
+        return False
+
+    return walk(model.graph)
 
 
 class _HarnessLimit(Exception):
@@ -325,7 +352,8 @@ def run_shard(spec):
 
         from vf.rulehosts.plant_noop import plant_if_scopes, plant_loop_scopes, plant_operator_table
 
-        cfg = dict(CFG, extra_generators=[plant_if_scopes, plant_loop_scopes, plant_loop_scopes, plant_operator_table, plant_operator_table], extra_weight=2)
+        cfg = dict(CFG, extra_generators=[plant_if_scopes, plant_loop_scopes, plant_loop_scopes, plant_operator_table, plant_operator_table, _plant_loop_cond_passthrough],
+                   extra_weight=2)
         n_main = spec["n"] if not all16 else max(1, spec["n"] // 16)
         drive(st.tuples(opt_strategy, modelgen.models(cfg)), body, n_main, spec["seed"])
         # models of OLDER opsets whose nodes spell out an attribute: the exported text names the operator of the model's own opset, whose
